@@ -45,8 +45,16 @@ def pytest_configure(config):
 
     from vlib import invariants as inv
 
+    hook_counters = None
+    if os.environ.get("VERIF_SUITE_SUBST") == "1":
+        # the online C03 contract on Survey._var_repl_function (every substitution any test causes is judged from pyxform's own context)
+        os.environ["PYXFORM_VERIF"] = "1"
+        from vlib import hooks as _hooks
+        _hooks.install_subst_hook()
+        hook_counters = _hooks.counters
     orig = Survey.to_xml
     fh = open(f"{log}.{os.getpid()}", "a", encoding="utf-8")
+    seen_subst = [0]
     depth = [0]
 
     def wrapped(self, validate=True, pretty_print=True, warnings=None, enketo=False):
@@ -67,6 +75,11 @@ def pytest_configure(config):
                     rec["translations"] = ntr
                 if p is not None:
                     rec["v"]["C03"] = inv.c03_tokens(p)
+                    if hook_counters is not None:
+                        msgs = hook_counters.get("subst_violations", [])
+                        rec["v"]["C03"] = rec["v"]["C03"] + [("hook:substituted-path-does-not-reach-target-from-pyxform-context", m_) for m_ in msgs[seen_subst[0]:][:5]]
+                        seen_subst[0] = len(msgs)
+                        rec["subst_evals"] = hook_counters.get("subst", 0)
                     rec["v"]["C09"] = inv.c09_instances(p)
                     rec["v"]["C10"] = inv.c10_actions(p)
                 # C14: the same survey rendered again gives the same text
